@@ -38,7 +38,7 @@ Definition repo_dc7d826 : behaviour := mkBeh false false false false true false 
 
 (** THE SWITCH: which behaviour the library under test has; the extracted model driver replays this one.
     Set back to [repaired_except_pinned] once notes/proposed-fixes/C16-dataview-template-empty-count.patch has landed. *)
-Definition current_behaviour : behaviour := repo_dc7d826.
+Definition current_behaviour : behaviour := repaired_except_pinned.
 
 (** the switches that a patch can turn off *)
 Definition slices_repaired (B : behaviour) : Prop :=
